@@ -445,24 +445,13 @@ class HTTP1Connection(httputil.HTTPConnection):
                 and self._disconnect_on_finish
             ):
                 headers["Connection"] = "close"
-            # If a 1.0 client asked for keep-alive, add the header.
+            # If a 1.0 client asked for keep-alive (and will get it), add the header.
             if (
                 self._request_start_line.version == "HTTP/1.0"
                 and self._request_headers.get("Connection", "").lower() == "keep-alive"
+                and not self._disconnect_on_finish
             ):
-                if (
-                    "Content-Length" in headers
-                    or self._request_start_line.method == "HEAD"
-                    or start_line.code in (204, 304)
-                    or 100 <= start_line.code < 200
-                ):
-                    headers["Connection"] = "Keep-Alive"
-                else:
-                    # HTTP/1.0 has no chunked encoding, so without a
-                    # Content-Length (e.g. the handler flushed before
-                    # finishing) the end of the body can only be signalled
-                    # by closing the connection.
-                    self._disconnect_on_finish = True
+                headers["Connection"] = "Keep-Alive"
         if self._chunking_output:
             headers["Transfer-Encoding"] = "chunked"
         if not self.is_client and (
